@@ -579,7 +579,7 @@ func c16Churn(rng *rand.Rand, n int) []c16Case {
 
 // C16 — closing one end of a bridged TCP connection closes the other.
 func C16(r *core.Run) {
-	r.SetRule("harness TCP client -> real tcp-bridge-frontend -> real tcp-bridge-backend -> harness TCP server; per connection one peer closes first ({client, server} x {never used, idle after an exchange, its own data in flight, the other peer's data in flight, both} x sizes; full close, CloseWrite followed by close, abortive close (SetLinger(0) or Close with unread data), 4-16 MiB bursts closed at once towards a slow-reading peer, and a 32 MiB burst closed at once towards a peer that reads nothing for 14 s); 100 (thorough 500) short connections strictly one after the other through the same processes; 3000 (thorough 24000) rounds in which both peers of a connection close at nearly the same instant, then a liveness probe; thorough only (the quick tier cannot reach a five-minute default): one connection per direction carrying 7 bytes every 4 s one way for 320 s with the other direction silent, then a real close - every byte, then end-of-stream, and not before; three connections whose frontend->backend websocket handshake is held up for 7 s by a relay while the client writes and closes; websocket handshakes on the streaming path that the backend refuses (extensions offered, bad version, no key, foreign origin, POST) must leave no connection to the TCP server; the other peer must read end-of-stream within T=10s of (close, last byte of the data sent before the close); with both peers gone each bridge process' socket count (/proc/<pid>/fd) must be back at its idle baseline within T; a missed bound is re-run alone on a fresh pair of bridge processes before it is reported; class = (phase, who closes first, close kind, what is in flight, sizes)")
+	r.SetRule("harness TCP client -> real tcp-bridge-frontend -> real tcp-bridge-backend -> harness TCP server; per connection one peer closes first ({client, server} x {never used, idle after an exchange, its own data in flight, the other peer's data in flight, both} x sizes; full close, CloseWrite followed by close, abortive close (SetLinger(0) or Close with unread data), 4-16 MiB bursts closed at once towards a slow-reading peer, and a 32 MiB burst closed at once towards a peer that reads nothing for 14 s); 100 (thorough 500) short connections strictly one after the other through the same processes; 3000 (thorough 24000) rounds in which both peers of a connection close at nearly the same instant, then a liveness probe; six more connections opened at the very end, when the two processes have been up for more than 15 s; thorough only (the quick tier cannot reach a five-minute default): one connection per direction carrying 7 bytes every 4 s one way for 320 s with the other direction silent, then a real close - every byte, then end-of-stream, and not before; three connections whose frontend->backend websocket handshake is held up for 7 s by a relay while the client writes and closes; websocket handshakes on the streaming path that the backend refuses (extensions offered, bad version, no key, foreign origin, POST) must leave no connection to the TCP server; the other peer must read end-of-stream within T=10s of (close, last byte of the data sent before the close); with both peers gone each bridge process' socket count (/proc/<pid>/fd) must be back at its idle baseline within T; a missed bound is re-run alone on a fresh pair of bridge processes before it is reported; class = (phase, who closes first, close kind, what is in flight, sizes)")
 	r.Assume("a half close (CloseWrite) is only observed; the verdict is taken after the same peer has fully closed")
 	r.Assume("completeness of the data sent before the close is judged only for a graceful close by a peer that had nothing unread (never used / idle / own data in flight, including the slow-reader bursts); for abortive closes only the propagation of the close and the release of the sockets are judged: closing a TCP socket with unread data resets the connection and may discard the closer's own data even without a bridge")
 	bins := bridgeBuild(r)
@@ -588,6 +588,7 @@ func C16(r *core.Run) {
 		r.Broken(err.Error())
 		r.Finish(1)
 	}
+	engineUp := time.Now()
 	r.Set("idle_sockets_frontend", e.topo.FrontBase)
 	r.Set("idle_sockets_backend", e.topo.BackBase)
 
@@ -687,6 +688,19 @@ func C16(r *core.Run) {
 	}
 	stallWG.Wait()
 	sim := <-simDone
+	// late connections: new clients through the same two processes, which have been up for well over 10 s now
+	lateAge := time.Since(engineUp).Seconds()
+	lateCases := c16SeqCases(6, len(cases)+100000)
+	var lateResults []c16Result
+	for i := range lateCases {
+		lateCases[i].Phase = "late"
+		lateCases[i].Class = c16Class(&lateCases[i])
+		res := e.run(lateCases[i])
+		lateResults = append(lateResults, res)
+		if res.Harness != "" || res.Missed {
+			break // one failure is enough; it is repeated alone below
+		}
+	}
 	fC, bC, leakC := e.settle()
 	r.Set("sockets_right_after_matrix(not_settled)", map[string]int{"frontend": fM, "backend": bM})
 	r.Set("sockets_after_all_peers_gone_for_T", map[string]int{"frontend": fC, "backend": bC})
@@ -885,6 +899,45 @@ func C16(r *core.Run) {
 				}
 			} else {
 				r.Inconclusive(fmt.Sprintf("sequential connection #%d (%s) missed the bound; %d sequential connections on fresh processes did not", seqMissed+1, seqCases[seqMissed].Class, len(again)))
+			}
+		}
+	}
+
+	// ---- late connections
+	r.Set("late_connections_opened_at_process_age_s(at_least)", float64(int(lateAge*10))/10)
+	for i, res := range lateResults {
+		cs := lateCases[i]
+		r.Case(cs.Class)
+		switch {
+		case res.Harness == "" && !res.Missed:
+			if res.PreCloseRecv != res.PreCloseSent || res.Altered {
+				r.Violate("C16:data-before-close-lost:"+cs.Closer+"-closes-first",
+					fmt.Sprintf("case %d (%s): the other peer's stream ended (%s) after %d of the %d bytes written before the graceful close (altered=%v)", cs.ID, cs.Class, res.EOS, res.PreCloseRecv, res.PreCloseSent, res.Altered), cs, res)
+			}
+		default:
+			// repeat the history alone: fresh processes, left idle for 12 s, then this connection
+			what := res.Harness
+			if res.Missed {
+				what = fmt.Sprintf("%s closed, the other peer saw no end-of-stream for %s", cs.Closer, c16Bound)
+			}
+			ce, err := c16NewEngine(r, bins, "-lateconfirm")
+			if err != nil {
+				r.Broken("confirmation topology: " + err.Error())
+				break
+			}
+			time.Sleep(12 * time.Second)
+			again := ce.run(cs)
+			judgeProcs(r, true, ce.topo.Front, ce.topo.Back)
+			ce.close()
+			if again.Harness != "" || again.Missed {
+				sig := "C16:connection-never-reaches-server:late-connection"
+				if res.Missed {
+					sig = "C16:eof-not-propagated:late-connection"
+				}
+				r.Violate(sig, fmt.Sprintf("case %d (%s), opened when the bridge processes had been up for %.0f s (dozens of earlier connections were bridged properly): %s; repeated alone on fresh processes that were left idle for 12 s before their first connection: %s (missed=%v)",
+					cs.ID, cs.Class, lateAge, what, again.Harness, again.Missed), cs, map[string]interface{}{"first": res, "second": again})
+			} else {
+				r.Inconclusive(fmt.Sprintf("late case %d (%s): %s; not reproduced on fresh processes aged 12 s", cs.ID, cs.Class, what))
 			}
 		}
 	}
